@@ -165,6 +165,15 @@ def rule_keys(model):
                 # 'previous' + '-sequence-size' (a helper inlined with a
                 # constant argument), f'{...}-sequence-size'
                 ok_, val_ = model.fold(sl_, fi)
+                if not ok_ and isinstance(sl_, ast.JoinedStr) and all(
+                        isinstance(v, ast.Constant) or (
+                            isinstance(v, ast.FormattedValue) and
+                            isinstance(v.value, ast.Constant) and
+                            v.format_spec is None and v.conversion == -1)
+                        for v in sl_.values):
+                    ok_, val_ = True, ''.join(
+                        str(v.value if isinstance(v, ast.Constant)
+                            else v.value.value) for v in sl_.values)
                 if ok_ and isinstance(val_, str):
                     sl_ = ast.copy_location(ast.Constant(value=val_), sl_)
                     st.targets[0].slice = sl_
